@@ -284,3 +284,9 @@ def post(ctx, bins):
                                             "option output differs from the formatting model applied to the implementation's default digits (%s)" % jop))
     ctx["post_evaluations"] = n
     return viol
+
+
+def classify(v):
+    """call-site classes of known findings (findlib.py)"""
+    import findlib
+    return findlib.write_class(v)
